@@ -480,6 +480,15 @@ impl ArgEncodingState {
 }
 
 /// Implements the encoding of argument values into byte blobs according to an instruction's ABI.
+/// Get the value of an integer argument that is stored in fewer than 4 bytes, or report that it does not fit.
+fn fit_int_arg<T: TryFrom<i32>>(arg: &Sp<LowerArg>, emitter: &impl Emitter) -> Result<T, ErrorReported> {
+    let value = arg.expect_raw().expect_int();
+    T::try_from(value).map_err(|_| emitter.emit(error!(
+        message("argument value out of range"),
+        primary(arg, "{value} does not fit in the {}-byte field of this parameter", std::mem::size_of::<T>()),
+    )))
+}
+
 fn encode_args(
     state: &mut ArgEncodingState,
     hooks: &dyn LanguageHooks,
@@ -611,19 +620,19 @@ fn encode_args(
             => args_blob.write_i32(arg.expect_raw().expect_int()).expect("Cursor<Vec> failed?!"),
 
             | ArgEncoding::Integer { size: 2, format: ast::IntFormat { signed: true, radix: _ }, .. }
-            => args_blob.write_i16(arg.expect_raw().expect_int() as _).expect("Cursor<Vec> failed?!"),
+            => args_blob.write_i16(fit_int_arg(arg, emitter)?).expect("Cursor<Vec> failed?!"),
 
             | ArgEncoding::Integer { size: 1, format: ast::IntFormat { signed: true, radix: _ }, .. }
-            => args_blob.write_i8(arg.expect_raw().expect_int() as _).expect("Cursor<Vec> failed?!"),
+            => args_blob.write_i8(fit_int_arg(arg, emitter)?).expect("Cursor<Vec> failed?!"),
 
             | ArgEncoding::Integer { size: 4, format: ast::IntFormat { signed: false, radix: _ }, .. }
             => args_blob.write_u32(arg.expect_raw().expect_int() as _).expect("Cursor<Vec> failed?!"),
 
             | ArgEncoding::Integer { size: 2, format: ast::IntFormat { signed: false, radix: _ }, .. }
-            => args_blob.write_u16(arg.expect_raw().expect_int() as _).expect("Cursor<Vec> failed?!"),
+            => args_blob.write_u16(fit_int_arg(arg, emitter)?).expect("Cursor<Vec> failed?!"),
 
             | ArgEncoding::Integer { size: 1, format: ast::IntFormat { signed: false, radix: _ }, .. }
-            => args_blob.write_u8(arg.expect_raw().expect_int() as _).expect("Cursor<Vec> failed?!"),
+            => args_blob.write_u8(fit_int_arg(arg, emitter)?).expect("Cursor<Vec> failed?!"),
 
             | ArgEncoding::Integer { size, .. }
             => panic!("unexpected integer size: {size}"),
